@@ -18,7 +18,10 @@ CFG = dict(
               "+ differential run with single-rule-breaking mutations after every prefix of accepted honest traffic, independent rule oracle on the real objects",
     lean=["Ssv.Props.C09"],
     engines=[dict(harness="validation", driver="m_validation", args=["-mode", "c09"], case_delim="reset",
-                  n_quick=150, n_thorough=8000, thorough_seeds=3, n_search=1500, search_seeds=3)],
+                  n_quick=150, n_thorough=1200, thorough_seeds=2, n_search=600, search_seeds=3),
+             # thorough tier only: concurrent calls for the same / different ids under the Go race detector (the engine builds the
+             # race-instrumented harness itself), sequential Lean model as linearizability oracle of the verdict multisets
+             dict(harness="validationrace", driver="m_validation", case_delim=None, n_quick=0, n_thorough=150, thorough_seeds=2, n_search=0, search_seeds=0)],
     rule="honest traffic = spec-test-kit partial-signature messages + every broadcast of real multi-operator QBFT runs (n=4/7, five consensus roles, scenarios: happy, "
          "different start values, lost leaders (justified proposals rounds 2..12), prepared round changes with prepare justifications, shuffled delivery, one operator down, "
          "rounds up to the role maximum); per case: fresh real validator, a prefix of the honest trace (accepted), then up to six single-rule-breaking mutations of the next "
